@@ -632,8 +632,45 @@ def bounded(rep, tier):
                     fails.setdefault(f'C04.bounded.{dname}.float.{"exponent" if "e" in repr(x) else "decimal"}', (repr(x), obs))
         for v in (0, 7, -5, 10 ** 30, True, False, None):
             n += 1
+    # identifiers in every grammatical position: one sentence per production with each plain name written as a quoted name; wherever the
+    # parser stores the name in an Identifier, the parts must be the denoted names (no delimiter left in them)
+    from vlib import corpus
+    from mindsdb_sql.parser.ast.base import ASTNode
+
+    def idents(node, seen):
+        if id(node) in seen:
+            return
+        seen.add(id(node))
+        if isinstance(node, Identifier):
+            yield node
+        if isinstance(node, ASTNode):
+            for v_ in vars(node).values():
+                yield from idents(v_, seen)
+        elif isinstance(node, (list, tuple)):
+            for v_ in node:
+                yield from idents(v_, seen)
+        elif isinstance(node, dict):
+            for v_ in node.values():
+                yield from idents(v_, seen)
+    for dname in lrtab.DIALECTS:
+        d = lrtab.load(dname)
+        for num, sql in corpus.production_sentences(dname):
+            toks = sql.split()
+            if 'abc' not in toks:
+                continue
+            sql2 = ' '.join('`A b`' if t == 'abc' else t for t in toks)
+            n += 1
+            try:
+                tree = parse_sql(sql2, dialect=dname)
+            except Exception:
+                continue
+            for idn in idents(tree, set()):
+                bad = [p_ for p_ in idn.parts if isinstance(p_, str) and '`' in p_]
+                if bad:
+                    pr = d.prods[num]
+                    fails.setdefault(f'C04.bounded.{dname}.ident-position.{pr.name}', (sql2, f'an Identifier of the tree has the part {bad[0]!r}: the delimiters were not removed (production {pr.name}: {" ".join(pr.prod)})'))
     rep.bounded_evals = n
-    rep.bounded_rule = (f'all strings of length <= {maxlen} over {chars} as Constant values printed and re-parsed in each dialect; floats m*10^e for e in -7..17; '
+    rep.bounded_rule = (f'one sentence per production with every plain name written as `A b`: no Identifier part of the tree keeps a back-quote; all strings of length <= {maxlen} over {chars} as Constant values printed and re-parsed in each dialect; floats m*10^e for e in -7..17; '
                         'failures grouped by dialect x region (same regions as the fst obligations)')
     for cid, (inp, obs) in sorted(fails.items()):
         rep.add_bounded(Bounded(cid, False, inp, obs, 'value read back unchanged', bound=f'len<={maxlen}'))
